@@ -99,7 +99,29 @@ class InvLoop:
                 havoc_heap(q, oid, f'{tag}_h{oid}', attrs)
         return q
 
+    def scope_lookup(self, name):
+        return self.fr.scope.lookup(name)
+
+    def symbolic_lists(self, eng, p, s, fr):
+        """python lists of statically known length that the loop body appends to become z3 sequences (symbolic length)"""
+        kinds = getattr(self, 'list_kinds', {})
+        for st in s.body:
+            for n in ast.walk(st):
+                if isinstance(n, ast.Call) and isinstance(n.func, ast.Attribute) and n.func.attr in ('append', 'extend') and isinstance(n.func.value, ast.Name):
+                    cid = fr.scope.lookup(n.func.value.id)
+                    v = p.cells.get(cid) if cid is not None else None
+                    if isinstance(v, Ref) and p.heap[v.oid][0] == 'list':
+                        kind = kinds.get(n.func.value.id, 'val')
+                        items = p.heap[v.oid][1]
+                        sort = {'val': ValSeq, 'real': z3.SeqSort(z3.RealSort()), 'str': z3.SeqSort(z3.StringSort()), 'int': z3.SeqSort(IntSort())}[kind]
+                        from .heapmodels import elem_term
+                        ts = [elem_term(eng, p, x, kind) for x in items]
+                        seq = z3.Empty(sort) if not ts else (z3.Unit(ts[0]) if len(ts) == 1 else z3.Concat(*[z3.Unit(t) for t in ts]))
+                        p.heap[v.oid] = ('slist', seq, kind)
+
     def apply(self, eng, p, s, itv, fr):
+        self.fr = fr
+        self.symbolic_lists(eng, p, s, fr)
         self.pre = p.fork(); self.eng = eng
         is_for = isinstance(s, ast.For)
         N = None; seq = None
